@@ -135,7 +135,7 @@ def run(c):
         shape = ",".join("%s%s" % (x["fsop"], "+A" if x.get("append") else "") for x in fs)
         key = "%s:%s:%s:%s" % (b.get("api"), b.get("kind"), e.get("res", e.get("fsop")), shape[:60])
         seen[key] = seen.get(key, 0) + 1
-        if seen[key] <= 2:
+        if c.want_reproduction(key, seen[key]):
             s = scen[owner[i]]
             c.reproduce_trace("vario", s["sc"], "EfiVarIoTrace", "EfiVarIoTrace.cfg", ("sc", "panic", "ev"))
         c.report(key, "%s %s of %s: FS calls [%s], result %s - not allowed by the contract" % (b.get("api"), b.get("kind"), b.get("path"), shape, e.get("res")),
